@@ -639,6 +639,7 @@ func main() {
 	pkgs := flag.String("pkgs", "", "comma separated package patterns, relative to -repo (./storage/...) or import paths")
 	exclude := flag.String("exclude", "", "comma separated import paths to leave native")
 	repo := flag.String("repo", "/repo", "repository root")
+	overlayRoot := flag.String("overlay-root", "", "write overlay keys as if the files lived under this root instead of -repo (instrument a scratch worktree, build against /repo)")
 	allowRecover := flag.Bool("allow-recover", false, "accept recover() calls")
 	quiet := flag.Bool("q", false, "do not print the inventory")
 	flag.BoolVar(&dropMapHints, "drop-map-hints", true, "drop constant capacity hints of make(map[K]V, n)")
@@ -732,7 +733,11 @@ func main() {
 			if err := os.WriteFile(dst, buf.Bytes(), 0o644); err != nil {
 				die("%v", err)
 			}
-			overlay[orig] = dst
+			key := orig
+			if *overlayRoot != "" && !strings.HasPrefix(rel, "_ext") {
+				key = filepath.Join(*overlayRoot, rel)
+			}
+			overlay[key] = dst
 			inv.Files++
 		}
 		if len(inv.Problems) > 0 {
